@@ -121,7 +121,9 @@ def _meta(tk, exp, rng) -> str:
 
 def _frame_image(rng, files, exp, idx, unit, x="1cm", y="1cm", reuse=None):
     im = reuse or _rand_image(rng, idx)
-    name = f"Pictures/img{idx}{im['ext']}" if reuse is None else reuse["name"]
+    # part names are case-sensitive and free-form: camera / scanner / Windows producers keep names such as PHOTO_1.PNG, Scan_2.Jpg
+    ext = random.Random(f"odf-picture-name:{idx}:{im['sha'][:6]}").choice([im["ext"]] * 6 + [im["ext"].upper()] * 3 + [im["ext"].title()])
+    name = f"Pictures/img{idx}{ext}" if reuse is None else reuse["name"]
     im["name"] = name
     files[name] = im["data"]
     exp.images.append({"sha": im["sha"], "ctype": im["ctype"], "w": None, "h": None, "unit": unit})
